@@ -541,7 +541,9 @@ def compare_typed(out, rec, exp, got_outcome, via):
                 return 'bad'
             if variety_tag(rec) == 'union' and lab not in accept_labels(b) and not xsi_default(rec):
                 # a member type earlier in the union accepted text outside its lexical space
-                out.fail('C20/typed-value/union/wrong-member', '%s %s text=%r type=%s: got %r (%s) expected %r (xs:%s)'
+                out.fail('C20/typed-value/union/wrong-member' + (
+                    '/anyURI-member-stricter-than-its-lexical-space' if b == 'anyURI' else ''),
+                    '%s %s text=%r type=%s: got %r (%s) expected %r (xs:%s)'
                          % (via, rec.path, rec.text, rec.tdesc, x, lab, d, b))
                 return 'bad'
             if xsi_default(rec):
@@ -567,7 +569,9 @@ def compare_typed(out, rec, exp, got_outcome, via):
                      % (via, rec.path, rec.text, rec.tdesc, x, lab, b))
             status = 'class'
         elif lab not in accept_labels(b) and variety_tag(rec) == 'union' and not rec.union_derived_member:
-            out.fail('C20/typed-value/union/wrong-member', '%s %s text=%r type=%s: got %r (%s): the first member type that '
+            out.fail('C20/typed-value/union/wrong-member' + (
+                '/anyURI-member-stricter-than-its-lexical-space' if b == 'anyURI' else ''),
+                '%s %s text=%r type=%s: got %r (%s): the first member type that '
                      'validates the text is xs:%s' % (via, rec.path, rec.text, rec.tdesc, x, lab, b))
             status = 'class'
         elif lab not in accept_labels(b):
